@@ -368,7 +368,7 @@ fn mutate_uri(g: &Gen, r: &mut Rng, u: &str) -> String {
     let taddr = g.pool.iter().find(|a| a.is_transparent_only()).unwrap().encode();
     let zaddr = g.pool.iter().find(|a| a.can_receive_memo()).unwrap().encode();
     let k = if ps.is_empty() { 0 } else { r.below(ps.len() as u64) as usize };
-    match r.below(22) {
+    match r.below(24) {
         0 if !ps.is_empty() => { let p = ps[k].clone(); let at = r.below(ps.len() as u64 + 1) as usize; ps.insert(at, p); }     // duplicate a parameter
         1 if ps.len() > 1 => { let j = r.below(ps.len() as u64) as usize; ps.swap(k, j); }                                   // reorder
         2 if !ps.is_empty() => { ps.remove(k); }                                                                             // drop (maybe the address)
@@ -395,9 +395,118 @@ fn mutate_uri(g: &Gen, r: &mut Rng, u: &str) -> String {
         18 => { ps.push(format!("{}={}", r.pick(ODD_NAMES), gen_valid_name(r))); }
         19 => { let big = "A".repeat(684 + r.below(3) as usize); ps.push(format!("memo={}", big)); }
         20 if !ps.is_empty() => { if let Some(e) = ps[k].find('=') { ps[k] = format!("{}{}", ps[k][..e].to_uppercase(), &ps[k][e..]); } }
+        21 if !ps.is_empty() => {
+            // the address parameter moves behind the other parameters (the renderer always puts it first)
+            if let Some(pos) = ps.iter().position(|p| p.starts_with("address")) {
+                let a = ps.remove(pos);
+                if r.bool() { ps.push(a); } else { let at = r.range(pos as u64, ps.len() as u64) as usize; ps.insert(at, a); }
+                if r.bool() { ps.insert(0, "amount=0".into()); }
+            } else if let Some(lead) = head.strip_prefix("zcash:").map(|x| x.to_string()) {
+                if !lead.is_empty() { head = "zcash:".into(); ps.push(format!("address={}", lead)); }
+            }
+        }
         _ => { return mutate_chars(r, u); }
     }
     join_uri(&head, &ps)
+}
+
+
+/// All orderings of a list (Heap's algorithm, small n).
+fn permutations<T: Clone>(xs: &[T]) -> Vec<Vec<T>> {
+    if xs.len() <= 1 { return vec![xs.to_vec()]; }
+    let mut out = vec![];
+    for i in 0..xs.len() {
+        let mut rest = xs.to_vec();
+        let x = rest.remove(i);
+        for mut p in permutations(&rest) { p.insert(0, x.clone()); out.push(p); }
+    }
+    out
+}
+
+/// Every ordering of one payment's parameters (address last, amount / memo before the address, ...)
+/// for transparent, Sapling and unified recipients, at index 0 and at later indices, with zero and
+/// non-zero amounts, with and without a memo; alone and next to a second, ordinary payment.
+fn ordering_cases(o: &mut Out, g: &Gen, full: bool) {
+    let mut recips: Vec<ZcashAddress> = vec![];
+    let pick = |f: &dyn Fn(&ZcashAddress) -> bool| g.pool.iter().filter(|a| f(a)).min_by_key(|a| a.encode().len()).cloned();
+    for f in [
+        &(|a: &ZcashAddress| a.is_transparent_only() && !a.encode().starts_with('u') && !a.encode().starts_with("tex")) as &dyn Fn(&ZcashAddress) -> bool,
+        &|a: &ZcashAddress| a.encode().starts_with("tex"),
+        &|a: &ZcashAddress| a.encode().starts_with('z') && a.can_receive_memo() && a.encode().contains("sapling") || a.encode().starts_with("zs"),
+        &|a: &ZcashAddress| a.encode().starts_with('u') && a.can_receive_memo(),
+        &|a: &ZcashAddress| a.encode().starts_with('u') && a.is_transparent_only(),
+    ] { if let Some(a) = pick(f) { recips.push(a); } }
+    let other = g.pool.iter().find(|a| a.can_receive_memo()).unwrap().encode();
+    for a in &recips {
+        let enc = a.encode();
+        for idx in (if full { vec![0usize, 1, 7, 9999] } else { vec![0usize, 7] }) {
+            let sfx = if idx == 0 { String::new() } else { format!(".{idx}") };
+            for amount in (if full { vec!["0", "0.00000000", "1.5"] } else { vec!["0", "1.5"] }) {
+                for with_memo in [false, true] {
+                    let mut ps = vec![format!("address{sfx}={enc}"), format!("amount{sfx}={amount}"), format!("label{sfx}=x")];
+                    if with_memo { ps.push(format!("memo{sfx}=VGhpcw")); }
+                    for perm in permutations(&ps) {
+                        // only orderings that differ from the renderer's (address first) are new
+                        from_uri_case(o, &format!("zcash:?{}", perm.join("&")));
+                        if perm[0].starts_with("address") || !(full || perm[perm.len() - 1].starts_with("address")) { continue; }
+                        // next to a second payment, before and after it
+                        let second = if idx == 0 { format!("address.3={other}&amount.3=2") } else { format!("address={other}&amount=2") };
+                        from_uri_case(o, &format!("zcash:?{}&{}", second, perm.join("&")));
+                        from_uri_case(o, &format!("zcash:?{}&{}&{}", perm[0], second, perm[1..].join("&")));
+                    }
+                    if idx == 0 {
+                        // lead-address form: the remaining parameters in every order
+                        for perm in permutations(&ps[1..]) { from_uri_case(o, &format!("zcash:{}?{}", enc, perm.join("&"))); }
+                    }
+                }
+            }
+        }
+    }
+}
+
+/// Long malformed URIs with raw (unencoded) multi-byte UTF-8 text, placed so that every byte offset
+/// around 96 of every possible "unparsed remainder" (whole URI, after the scheme, after '?', after a
+/// value's last qchar, after '&') falls inside characters of width 2, 3 and 4. Expected: Err, never a panic.
+fn long_non_ascii_cases(o: &mut Out, g: &Gen, full: bool) {
+    let valid = g.pool.iter().filter(|a| a.can_receive_memo()).min_by_key(|a| a.encode().len()).unwrap().encode();
+    let chars: [&str; 6] = ["\u{436}", "\u{e9}", "\u{4e2d}", "\u{20ac}", "\u{1f984}", "\u{10ffff}"];
+    let mixed = "\u{436}\u{4e2d}\u{1f984}";
+    let mut texts: Vec<String> = vec![];
+    for (i, c) in chars.iter().enumerate() { if full || i % 2 == 0 { texts.push(c.repeat(130 / c.len() + 40)); } }
+    texts.push(mixed.repeat(30));
+    texts.push(format!("{}{}", "\u{1f984}".repeat(23), "\u{e9}".repeat(40)));
+    for t in &texts {
+        for s in 0..(if full { 5usize } else { 4 }) {
+            for pad in (if full { vec!["#", " ", "a", "="] } else { vec!["#", "a"] }) {
+                let padded = format!("{}{}", pad.repeat(s), t);
+                // lead-address position (error input: the whole URI), also without / with a wrong scheme
+                from_uri_case(o, &format!("zcash:{padded}"));
+                from_uri_case(o, &format!("zcash:{padded}?amount=1"));
+                from_uri_case(o, &format!("zcas{padded}"));
+                // each parameter position: value of the first / a later parameter, name, address value, index
+                from_uri_case(o, &format!("zcash:{valid}?message={padded}"));
+                from_uri_case(o, &format!("zcash:{valid}?amount=1&message=ok{padded}&label=z"));
+                from_uri_case(o, &format!("zcash:{valid}?amount=1&{padded}=1"));
+                from_uri_case(o, &format!("zcash:?address={padded}&amount=1"));
+                from_uri_case(o, &format!("zcash:?address={valid}{padded}"));
+                from_uri_case(o, &format!("zcash:{valid}?amount=1{padded}"));
+                from_uri_case(o, &format!("zcash:{valid}?memo=VGhpcw{padded}"));
+                from_uri_case(o, &format!("zcash:{valid}?label.{padded}=1"));
+                from_uri_case(o, &format!("zcash:{valid}?{padded}"));
+            }
+        }
+    }
+    // offsets 88..=100 of ASCII before the first multi-byte character, for the remainders that keep ASCII text
+    for k in 84..=101usize {
+        for c in ["\u{436}", "\u{4e2d}", "\u{1f984}"] {
+            let body = format!("{}{}{}", "b".repeat(k), c, "c".repeat(12));
+            from_uri_case(o, &format!("zcash:{body}"));
+            from_uri_case(o, &format!("{body}"));
+            from_uri_case(o, &format!("zcash:{valid}?{}#{body}", "amount=1"));
+            from_uri_case(o, &format!("zcash:{valid}?&{body}"));
+            from_uri_case(o, &format!("zcash:?{body}"));
+        }
+    }
 }
 
 fn hand_written() -> Vec<&'static str> {
@@ -495,6 +604,8 @@ fn main() {
 
     // --- hand-written URIs (ZIP 321 examples and boundary shapes) ------------------------------------
     for u in hand_written() { from_uri_case(&mut o, u); }
+    ordering_cases(&mut o, &g, a.thorough() || a.search);
+    long_non_ascii_cases(&mut o, &g, a.thorough() || a.search);
 
     // --- the known defect class: other_params that collide with reserved / indexed names -------------
     {
